@@ -58,7 +58,7 @@ Theorem c15_tls_verdict : forall c, accept c = tls_ok c && accept (without_tls c
 Proof. exact accept_tls. Qed.
 Print Assumptions c15_tls_verdict.
 
-Theorem c15_tls_pair_independent : forall c, g_tls_cert c = Some true -> g_tls_key c = Some true ->
+Theorem c15_tls_pair_independent : forall c, g_tls_cert c = Some LoadSome -> g_tls_key c = Some LoadSome ->
   accept c = accept (without_tls c).
 Proof. exact tls_pair_independent. Qed.
 Print Assumptions c15_tls_pair_independent.
@@ -67,9 +67,9 @@ Theorem c15_tls_key_alone_independent : forall c, g_tls_cert c = None -> accept 
 Proof. exact tls_key_alone_independent. Qed.
 Print Assumptions c15_tls_key_alone_independent.
 
-Theorem c15_rejects_tls : forall c,
-  g_tls_cert c = Some false \/
-  (g_tls_cert c = Some true /\ (g_tls_key c = None \/ g_tls_key c = Some false)) -> accept c = false.
+Theorem c15_rejects_tls : forall c v,
+  (g_tls_cert c = Some v /\ v <> LoadSome) \/
+  (g_tls_cert c = Some LoadSome /\ g_tls_key c <> Some LoadSome) -> accept c = false.
 Proof. exact reject_tls. Qed.
 Print Assumptions c15_rejects_tls.
 
@@ -300,7 +300,7 @@ Definition ex_settings : config :=
                u_pool_mode := Some Session; u_statement_timeout := 77 |} in
   {| g_auth_query := false; g_auth_user := false; g_auth_password := false;
      g_connect_timeout := 1000; g_idle_timeout := 600000; g_server_lifetime := 3600000;
-     g_tls_cert := Some true; g_tls_key := Some true; g_plugins := Some gplug;
+     g_tls_cert := Some LoadSome; g_tls_key := Some LoadSome; g_plugins := Some gplug;
      c_pools := [ {| p_name := [97]; p_default_role := s_any; p_default_shard := DShard 0; p_parser := true; p_rw_split := false;
                      p_plugins := Some pplug; p_pool_mode := Transaction; p_auto_key := Some [34; 116; 34; 46; 105; 100];
                      p_key_regex := None; p_shard_regex := None; p_auth_query := false; p_auth_user := false; p_auth_password := false;
@@ -323,9 +323,19 @@ Proof. split; vm_compute; reflexivity. Qed.
 Example regress_tls_does_not_skip_pools :
   accept {| g_auth_query := false; g_auth_user := false; g_auth_password := false;
             g_connect_timeout := 1000; g_idle_timeout := 600000; g_server_lifetime := 3600000;
-            g_tls_cert := Some true; g_tls_key := Some true; g_plugins := None;
+            g_tls_cert := Some LoadSome; g_tls_key := Some LoadSome; g_plugins := None;
             c_pools := [mkpool [one [49] 1; one [50] 2] [([48], usr [117] 5)] (DShard 0) s_any] |} = false.
 Proof. vm_compute. reflexivity. Qed.
+
+(* a certificate / key file without the expected PEM item (e.g. the pair swapped) is rejected *)
+Example regress_tls_empty_files :
+  let c ce ke := {| g_auth_query := false; g_auth_user := false; g_auth_password := false;
+                    g_connect_timeout := 1000; g_idle_timeout := 600000; g_server_lifetime := 3600000;
+                    g_tls_cert := Some ce; g_tls_key := Some ke; g_plugins := None;
+                    c_pools := [mkpool [one [48] 1] [([48], usr [117] 5)] (DShard 0) s_any] |} in
+  accept (c LoadSome LoadSome) = true /\ accept (c LoadEmpty LoadEmpty) = false /\
+  accept (c LoadSome LoadEmpty) = false /\ accept (c LoadEmpty LoadSome) = false /\ accept (c LoadSome LoadErr) = false.
+Proof. vm_compute. repeat split; reflexivity. Qed.
 
 (* spellings *)
 Example spellings :
